@@ -10,7 +10,7 @@ git -C $W checkout -- .
 PYTHONPATH=$W/src /venv/bin/python "$D/demo.py" > /tmp/demo_clean_wt.out 2>&1; C=$?
 git -C $W apply "$D/patch.diff" || { echo "patch does not apply"; exit 2; }
 PYTHONPATH=$W/src /venv/bin/python "$D/demo.py" > /tmp/demo_mut_wt.out 2>&1; M=$?
-cd /verif && PYTHONPATH=$W/src ./check "$PID" "$@" > /tmp/check_mut_wt.out 2>&1; RC=$?
+cd /verif && VERIF_SCRATCH_EVIDENCE=1 PYTHONPATH=$W/src ./check "$PID" "$@" > /tmp/check_mut_wt.out 2>&1; RC=$?
 git -C $W checkout -- .
 NV=$(grep -c '^VIOLATION' /tmp/check_mut_wt.out)
 echo "$(basename $D): demo clean=$C mutated=$M | check $PID $* -> exit $RC, $NV VIOLATION lines | $(grep 'tier=' /tmp/check_mut_wt.out | cut -c1-160)"
